@@ -247,6 +247,7 @@ func (m *Model) Validate() error {
 
 type expTable struct {
 	Name string            // lower case
+	Auto map[string]bool   // column (lower) -> autoincrement
 	Cols map[string]string // column (lower) -> normalised SQL type
 	PK   []string          // sorted, lower
 	FK   map[string]string // column (lower) -> "table.column" (lower)
@@ -255,10 +256,11 @@ type expTable struct {
 func Expected(m *Model) map[string]*expTable {
 	out := map[string]*expTable{}
 	for _, t := range m.Tables {
-		e := &expTable{Name: strings.ToLower(t.Name), Cols: map[string]string{}, FK: map[string]string{}, PK: t.PKSet()}
+		e := &expTable{Name: strings.ToLower(t.Name), Cols: map[string]string{}, FK: map[string]string{}, PK: t.PKSet(), Auto: map[string]bool{}}
 		for _, c := range t.Cols {
 			lc := strings.ToLower(c.Name)
 			e.Cols[lc] = m.SQLType(c)
+			e.Auto[lc] = c.AutoInc
 			if c.Kind == "ref" {
 				e.FK[lc] = strings.ToLower(c.RefTable) + "." + strings.ToLower(c.RefCol)
 			}
@@ -284,7 +286,11 @@ func DumpExpected(exp map[string]*expTable) string {
 		}
 		sort.Strings(cs)
 		for _, c := range cs {
-			fmt.Fprintf(&b, "  %s %s\n", c, e.Cols[c])
+			fmt.Fprintf(&b, "  %s %s", c, e.Cols[c])
+			if e.Auto[c] {
+				b.WriteString(" autoincrement")
+			}
+			b.WriteByte('\n')
 		}
 		if len(e.PK) > 0 {
 			fmt.Fprintf(&b, "  primary key {%s}\n", strings.Join(e.PK, ","))
@@ -349,6 +355,9 @@ func Compare(exp map[string]*expTable, cat *Catalog, strict bool) []Diff {
 			}
 			if ac.Type != e.Cols[c] {
 				out = append(out, Diff{Kind: "col-type", Table: n, Col: c, Want: e.Cols[c], Got: ac.Type})
+			} else if strict && e.Auto[c] != (ac.Default != "") {
+				// creation: autoincrement is mapped to the serial pseudo-type (column fed by its own sequence)
+				out = append(out, Diff{Kind: "col-autoinc", Table: n, Col: c, Want: fmt.Sprint(e.Auto[c]), Got: fmt.Sprint(ac.Default != "")})
 			}
 		}
 		for _, ac := range t.Cols {
